@@ -21,6 +21,7 @@ from pyvc.unit import unit
 from pyvc import core
 
 LEVEL = "other"
+STANDIN_ALWAYS_THOROUGH = True      # its large bound takes seconds: used at both tiers
 EXPLANATION = ("MIXED. Deductive part: finite case analysis of the real server handshake (header combinations through the real Application and handler), of the server's subprotocol / extension "
                "negotiation and of the client's processing of the server's response, against RFC 6455 section 4 and RFC 7692 section 7.1 written in the contract. Bounded part: random header sets "
                "with adversarial Origin values, subprotocol lists and extension offers.")
